@@ -91,8 +91,10 @@ def gen_program(seed, family):
         for _ in range(ncmd):
             c = rng.randrange(ncont)
             ops = ["load", "load", "loadfull", "dropg", "store", "swap", "new", "dropo"]
-            if family in ("cas", "mixed", "multi", "helping"):
+            if family in ("cas", "mixed", "multi", "helping", "panic"):
                 ops += ["cas", "cas", "rcu"]
+            if family == "panic":
+                ops += ["rcu", "rcu", "rcu", "store"]
             if family == "cas":
                 ops += ["cas", "rcu", "rcu"]
             if family in ("cache",):
@@ -152,7 +154,15 @@ def gen_program(seed, family):
                 h2 = g.handle(); cmds.append("cas %d %s %s %d" % (c, cur, new, h2)); guards.append(h2)
             elif op == "rcu":
                 h2 = g.handle()
-                cmds.append("rcu %d %s %d" % (c, rng.choice(["new", "new", "null", "same"]), h2)); owned.append(h2)
+                mode = rng.choice(["new", "new", "null", "same"])
+                if family == "panic":
+                    mode = rng.choice(["panic0", "panic0", "panic1", "panic2", "new"])
+                cmds.append("rcu %d %s %d" % (c, mode, h2))
+                if not mode.startswith("panic"):
+                    owned.append(h2)
+                else:
+                    # the result exists only if the closure did not reach its panicking attempt
+                    cmds.append("drop %d" % h2) if False else None
             elif op == "cachenew":
                 k = g.handle(); cmds.append("cachenew %d %d" % (c, k)); caches.append(k)
             elif op == "cacheload" and caches:
@@ -186,7 +196,7 @@ def gen_program(seed, family):
     return "\n".join(lines) + "\n"
 
 
-FAMILIES = ["basic", "mixed", "guards", "nofast", "helping", "cas", "multi", "churn", "seqchurn", "cache", "wrap"]
+FAMILIES = ["basic", "mixed", "guards", "nofast", "helping", "cas", "multi", "churn", "seqchurn", "cache", "wrap", "panic"]
 
 if __name__ == "__main__":
     import sys
